@@ -42,7 +42,7 @@ def gname(rng, base=None):
     r = rng.random()
     if base is not None and r < 0.55:
         # derive from base: case variant, child, parent, sibling, tweak one octet
-        k = rng.randrange(6)
+        k = rng.randrange(7)
         b = list(base)
         absolute = bool(b) and b[-1] == b""
         body = b[:-1] if absolute else b
@@ -63,6 +63,20 @@ def gname(rng, base=None):
         elif k == 5 and body:
             i = rng.randrange(len(body))
             body[i] = body[i] + bytes([rng.choice(ALPHA)]) if len(body[i]) < 63 else body[i][:-1] or b"a"
+        elif k == 6 and body:
+            # differ by bit 0x20 in an octet that is NOT an ASCII letter (0xC0-0xFE are letters in Latin-1, "[" / "{" neighbours
+            # in ASCII): such names are different names and order by raw octet value
+            i = rng.randrange(len(body))
+            l = bytearray(body[i])
+            j = rng.randrange(len(l))
+            l[j] = rng.choice((0xC0, 0xC9, 0xDE, 0xE0, 0xE9, 0xFE, 0xD7, 0xF7, 0x40, 0x60, 0x5B, 0x7B))
+            body[i] = bytes(l)
+            b2 = list(body)
+            l2 = bytearray(l)
+            l2[j] ^= 0x20
+            # half of the time hand back the flipped twin instead, so that both end up in one family
+            if rng.random() < 0.5:
+                body[i] = bytes(l2)
         if rng.random() < 0.1:
             absolute = not absolute
         n = tuple(body) + ((b"",) if absolute else ())
